@@ -137,8 +137,17 @@ FunctorManager::Env FunctorManager::createEnv(Context& caller, unsigned id, cons
 
   /* bind parameter values ​​to variables for all symbols */
   unsigned i = 0;
-  for (const Symbol& symbol : entry.functor->params)
-    VariableExpression(symbol).store(*_ctx, caller, pvals[i++]);
+  try
+  {
+    for (const Symbol& symbol : entry.functor->params)
+      VariableExpression(symbol).store(*_ctx, caller, pvals[i++]);
+  }
+  catch (...)
+  {
+    /* evaluating an argument failed: recycle the context */
+    entry.ctx_cache.push_front(_ctx);
+    throw;
+  }
 
   return Env(entry, _ctx);
 }
